@@ -86,7 +86,7 @@ impl FrameBuilder {
 }
 
 // ---- ghost model of one request: the CAS writer, the store calls and the request body ----
-pub enum AxEv { CasCommit(Integrity, Seq<u8>), Append(Frame), InsertFrame(Frame), RegisterCtx(u128) }
+pub enum AxEv { CasCommit(Integrity, Seq<u8>), Append(Frame), InsertFrame(Frame), RegisterCtx(u128), Subscribe(ReadOptions) }
 pub struct Ax {
     pub ghost body: Seq<Seq<u8>>,     // data chunks the request body will still yield
     pub ghost written: Seq<u8>,       // bytes given to the open CAS writer
@@ -303,6 +303,139 @@ fn cas_post_body_to_hash(store: &Store, body: &mut Incoming, Tracked(ax): Tracke
     let ghost mut consumed: Seq<Seq<u8>> = Seq::empty();
 //@@ epilogue
     Ok(Resp::Ok200)
+}
+//@@ end
+
+// ================= GET /: how one frame is rendered, NDJSON and SSE (C13) =================
+pub uninterp spec fn id_str(x: u128) -> Seq<char>;
+pub broadcast proof fn axiom_display_str(x: &str, res: String)
+    ensures #[trigger] vstd::string::to_string_from_display_ensures::<str>(x, res) ==> res@ == x@ { admit(); }
+//@@include _prelude_fmt.rs
+pub uninterp spec fn frame_json_text(f: Frame) -> Seq<char>;       // serde_json::to_string(&frame) (ASSUMED total and deterministic)
+pub mod render_json {
+    #[allow(unused_imports)] use super::*;
+    #[verifier::external_body]
+    pub fn to_vec(f: &Frame) -> (r: Result<Vec<u8>, SerdeError>) ensures r matches Ok(v) && v@ == vstd::utf8::encode_utf8(frame_json_text(*f)) { unimplemented!() }
+    #[verifier::external_body]
+    pub fn to_string(f: &Frame) -> (r: Result<String, SerdeError>) ensures r matches Ok(x) && x@ == frame_json_text(*f) { unimplemented!() }
+}
+pub assume_specification [String::into_bytes] (x: String) -> (r: Vec<u8>) ensures r@ == vstd::utf8::encode_utf8(x@);
+pub assume_specification<T: Default, E> [Result::<T, E>::unwrap_or_default] (x: Result<T, E>) -> (r: T) ensures x matches Ok(v) ==> r == v;
+impl Clone for AcceptType { #[verifier::external_body] fn clone(&self) -> (r: AcceptType) ensures r == *self { unimplemented!() } }
+//@@ slice file=src/api.rs fn=handle_stream_cat name=cat_render_frame
+//@@ from: let bytes = match accept_type_clone {
+//@@ through_stmt:
+//@@ format_desugar
+//@@ rewrite: serde_json::to_vec( ==> ! render_json::to_vec(
+//@@ rewrite: serde_json::to_string( ==> ! render_json::to_string(
+//@@ header
+fn cat_render_frame(frame: Frame, accept_type_clone: AcceptType) -> (r: Vec<u8>)
+    ensures
+        // NDJSON: the frame's JSON text and a newline; SSE: one event whose id is the frame id and whose data is the JSON text
+        accept_type_clone is Ndjson ==> r@ == vstd::utf8::encode_utf8(frame_json_text(frame)) + seq![10u8], //# api.cat.ndjson_is_one_json_line_per_frame
+        accept_type_clone is EventStream ==> r@ == vstd::utf8::encode_utf8("id: "@ + id_str(id_u128(frame.id)) + "\ndata: "@ + frame_json_text(frame) + "\n\n"@), //# api.cat.sse_event_has_frame_id_and_json
+{
+//@@ epilogue
+    bytes
+}
+//@@ end
+// ... and what is rendered is exactly the subscription the decoded options ask for: one Store::read with the options as decoded
+#[verifier::external_body] pub struct FrameRx { _p: () }
+impl Store {
+    #[verifier::external_body]
+    pub fn read(&self, Tracked(ax): Tracked<&mut Ax>, options: ReadOptions) -> (r: FrameRx)
+        ensures final(ax).log == old(ax).log.push(AxEv::Subscribe(options)), final(ax).body == old(ax).body, final(ax).written == old(ax).written,
+    { unimplemented!() }
+}
+//@@ slice file=src/api.rs fn=handle_stream_cat name=cat_subscribes_with_decoded_options
+//@@ from: let rx = store.read(
+//@@ through_stmt:
+//@@ strip: await
+//@@ after_all: store.read( ==> Tracked(ax),
+//@@ header
+fn cat_subscribes_with_decoded_options(store: &mut Store, options: ReadOptions, Tracked(ax): Tracked<&mut Ax>) -> (r: FrameRx)
+    ensures
+        final(ax).log == old(ax).log.push(AxEv::Subscribe(options)), //# api.cat.one_read_with_the_decoded_options
+{
+//@@ epilogue
+    rx
+}
+//@@ end
+
+// ================= handle(): every route is answered by the store operation it names, with the decoded arguments (C13) =================
+pub enum DEv { Version, Cat(ReadOptions, AcceptType), Append(Seq<char>, Option<TTL>, Scru128Id), CasGet(Integrity), CasPost, ItemGet(Scru128Id),
+               ItemRemove(Scru128Id), HeadGet(Seq<char>, bool, Scru128Id), Import, NotFound, BadRequest }
+pub struct Dx { pub ghost log: Seq<DEv>, pub ghost route: Option<Routes> }
+#[verifier::external_body] pub struct Method { _p: () }
+#[verifier::external_body] pub struct Request { _p: () }
+impl Request { #[verifier::external_body] pub fn into_body(self) -> (r: Incoming) { unimplemented!() } }
+// the handlers as handle() sees them (their own contracts: the other sections of this unit, and unit store_ops)
+#[verifier::external_body] pub fn match_route(Tracked(dx): Tracked<&mut Dx>, method: &Method, path: &str, headers: &HeaderMap, query: Option<&str>) -> (r: Routes)
+    ensures final(dx).route == Some(r), final(dx).log == old(dx).log { unimplemented!() }
+#[verifier::external_body] pub fn handle_version(Tracked(dx): Tracked<&mut Dx>) -> (r: HTTPResult)
+    ensures final(dx).log == old(dx).log.push(DEv::Version), final(dx).route == old(dx).route { unimplemented!() }
+#[verifier::external_body] pub fn handle_stream_cat(Tracked(dx): Tracked<&mut Dx>, store: &mut Store, options: ReadOptions, accept_type: AcceptType) -> (r: HTTPResult)
+    ensures final(dx).log == old(dx).log.push(DEv::Cat(options, accept_type)), final(dx).route == old(dx).route { unimplemented!() }
+#[verifier::external_body] pub fn handle_stream_append(Tracked(dx): Tracked<&mut Dx>, store: &mut Store, req: Request, topic: String, ttl: Option<TTL>, context_id: Scru128Id) -> (r: HTTPResult)
+    ensures final(dx).log == old(dx).log.push(DEv::Append(topic@, ttl, context_id)), final(dx).route == old(dx).route { unimplemented!() }
+#[verifier::external_body] pub fn handle_cas_post(Tracked(dx): Tracked<&mut Dx>, store: &mut Store, body: Incoming) -> (r: HTTPResult)
+    ensures final(dx).log == old(dx).log.push(DEv::CasPost), final(dx).route == old(dx).route { unimplemented!() }
+#[verifier::external_body] pub fn handle_stream_item_remove(Tracked(dx): Tracked<&mut Dx>, store: &mut Store, id: Scru128Id) -> (r: HTTPResult)
+    ensures final(dx).log == old(dx).log.push(DEv::ItemRemove(id)), final(dx).route == old(dx).route { unimplemented!() }
+#[verifier::external_body] pub fn handle_head_get(Tracked(dx): Tracked<&mut Dx>, store: &Store, topic: &String, follow: bool, context_id: Scru128Id) -> (r: HTTPResult)
+    ensures final(dx).log == old(dx).log.push(DEv::HeadGet(topic@, follow, context_id)), final(dx).route == old(dx).route { unimplemented!() }
+#[verifier::external_body] pub fn handle_import(Tracked(dx): Tracked<&mut Dx>, store: &mut Store, body: Incoming) -> (r: HTTPResult)
+    ensures final(dx).log == old(dx).log.push(DEv::Import), final(dx).route == old(dx).route { unimplemented!() }
+#[verifier::external_body] pub fn response_frame_or_404(frame: Option<Frame>) -> (r: HTTPResult) { unimplemented!() }
+#[verifier::external_body] pub fn dx_response_404(Tracked(dx): Tracked<&mut Dx>) -> (r: HTTPResult)
+    ensures final(dx).log == old(dx).log.push(DEv::NotFound), final(dx).route == old(dx).route { unimplemented!() }
+#[verifier::external_body] pub fn dx_response_400(Tracked(dx): Tracked<&mut Dx>, message: String) -> (r: HTTPResult)
+    ensures final(dx).log == old(dx).log.push(DEv::BadRequest), final(dx).route == old(dx).route { unimplemented!() }
+#[verifier::external_body] pub fn dx_cas_get(Tracked(dx): Tracked<&mut Dx>, store: &Store, hash: Integrity) -> (r: HTTPResult)
+    ensures final(dx).log == old(dx).log.push(DEv::CasGet(hash)), final(dx).route == old(dx).route { unimplemented!() }
+impl Store {
+    #[verifier::external_body] pub fn get(&self, Tracked(dx): Tracked<&mut Dx>, id: &Scru128Id) -> (r: Option<Frame>)
+        ensures final(dx).log == old(dx).log.push(DEv::ItemGet(*id)), final(dx).route == old(dx).route { unimplemented!() }
+}
+pub open spec fn dispatched(r: Routes) -> DEv {
+    match r {
+        Routes::Version => DEv::Version,
+        Routes::StreamCat { accept_type, options } => DEv::Cat(options, accept_type),
+        Routes::StreamAppend { topic, ttl, context_id } => DEv::Append(topic@, ttl, context_id),
+        Routes::HeadGet { topic, follow, context_id } => DEv::HeadGet(topic@, follow, context_id),
+        Routes::StreamItemGet(id) => DEv::ItemGet(id),
+        Routes::StreamItemRemove(id) => DEv::ItemRemove(id),
+        Routes::CasGet(h) => DEv::CasGet(h),
+        Routes::CasPost => DEv::CasPost,
+        Routes::Import => DEv::Import,
+        Routes::NotFound => DEv::NotFound,
+        Routes::BadRequest(_) => DEv::BadRequest,
+    }
+}
+//@@ slice file=src/api.rs fn=handle name=handle_dispatch
+//@@ from: let res = match match_route(
+//@@ through_stmt:
+//@@ strip: await
+//@@ elide_block: Routes::CasGet(hash) => ==> dx_cas_get(Tracked(dx), &store, hash),
+//@@ after_all: match_route( ==> Tracked(dx),
+//@@ after_all: handle_version( ==> Tracked(dx)
+//@@ after_all: handle_stream_cat( ==> Tracked(dx),
+//@@ after_all: handle_stream_append( ==> Tracked(dx),
+//@@ after_all: handle_cas_post( ==> Tracked(dx),
+//@@ after_all: handle_stream_item_remove( ==> Tracked(dx),
+//@@ after_all: handle_head_get( ==> Tracked(dx),
+//@@ after_all: handle_import( ==> Tracked(dx),
+//@@ after_all: store.get( ==> Tracked(dx),
+//@@ rewrite: response_404() ==> dx_response_404(Tracked(dx))
+//@@ rewrite: response_400(msg) ==> dx_response_400(Tracked(dx), msg)
+//@@ header
+fn handle_dispatch(mut store: Store, req: Request, method: &Method, path: &str, headers: HeaderMap, query: Option<&str>, Tracked(dx): Tracked<&mut Dx>) -> (r: HTTPResult)
+    ensures
+        // exactly one handler runs, the one the route names, with the arguments the route carries
+        final(dx).route matches Some(rt) && final(dx).log == old(dx).log.push(dispatched(rt)), //# api.handle.route_answered_by_its_own_operation
+{
+//@@ epilogue
+    res
 }
 //@@ end
 
